@@ -93,6 +93,20 @@ func TestSeeds(t *testing.T) {
 			cv.wire = append(cv.wire[:1], cv.wire[2:]...)
 			return cv
 		}, false},
+		{"midstream-fin-before-data", pcapEth, func() *conv {
+			// no handshake in the capture; c>FIN overtakes c>data(3)
+			cv := seedConv(seedConn(40000, 80, 1000, 2000, []int{3}, nil, true), []int{0, 0, 1})
+			cv.wire = cv.wire[3:]
+			cv.wire[0], cv.wire[1] = cv.wire[1], cv.wire[0]
+			return cv
+		}, true},
+		{"midstream-first-segments-swapped", pcapEth, func() *conv {
+			// no handshake in the capture; the first two data segments are swapped (seed C19-3)
+			cv := seedConv(seedConn(40000, 80, 1000, 2000, []int{3, 2, 4}, nil, true), []int{0, 0, 0, 0, 1})
+			cv.wire = cv.wire[3:]
+			cv.wire[0], cv.wire[1] = cv.wire[1], cv.wire[0]
+			return cv
+		}, true},
 		{"pcapng-second-section-other-link-type", fileSpec{Format: "pcapng", Links: []int{pcapgen.LinkRaw}, Vlan: -1, PreSection: true}, func() *conv {
 			return seedConv(seedConn(40000, 80, 1000, 2000, []int{5}, []int{3}, true), []int{0, 1, 0, 1})
 		}, false},
